@@ -3,6 +3,30 @@ package main
 // props is the per-property run configuration. Case counts bound the work
 // (never wall clock); TimeoutS is only a safety net that yields exit 2.
 var props = map[string]propCfg{
+	"C03": {
+		Test:     "TestC03",
+		Quick:    tierCfg{Shards: 8, Checks: 4000, TimeoutS: 900},
+		Thorough: tierCfg{Shards: 16, Checks: 150000, TimeoutS: 10800},
+		Rule:     "each case = (type spec, value) drawn as data: the type is composed with reflect.StructOf/MapOf/SliceOf/ArrayOf/PtrTo from basic kinds and a catalogue of ~50 named types with (Text)Marshaler methods on value/pointer receivers, recursive, embedded, same-named types; struct tags drawn from none/name/omitempty/string/-/clashing names/unexported/embedded; most types carry a unique field name so they are new to the process (programs = distinct types first compiled). The value is marshaled as value, through a pointer and as slice element by encoding/json and sonic.ConfigStd (3 evaluations per case), or wrapped in an unencodable shape (chan, func, complex, unsupported key, pointer/map cycle). Non-trivial: the type has a struct or map and the output has >= 3 tokens. Distinct = distinct canonical case encodings.",
+		Assume:   []string{"encoding/json of go1.23.5 is the reference (omitzero is not known to it and is not generated)", "map[bool]/map[float] keys are a sonic extension that encoding/json rejects: outside the property's domain, not generated", "string tokens compare by denoted value; for ,string fields two literals that are themselves quoted JSON strings compare by the string those denote"},
+		EssentialClasses: []string{"new-type", "has-map", "has-embedded", "has-string-opt", "has-omitempty", "both-error", "cat:MPtr", "cat:TVal", "cat:Tree"},
+	},
+	"C04": {
+		Test:     "TestC04",
+		Quick:    tierCfg{Shards: 8, Checks: 3000, TimeoutS: 900},
+		Thorough: tierCfg{Shards: 16, Checks: 150000, TimeoutS: 10800},
+		Rule:     "each case = (round-trippable type spec, value, encoder option mask 0..511) or (unrepresentable value kind, embedding shape, mask). Round-trip cases: encoder.Encode(v, mask) must be json.Valid and structurally one value, and decoding it with encoding/json, sonic.ConfigStd and sonic.ConfigDefault into a fresh T must deep-equal norm(v) (floats by bits); also via pointer (5 evaluations). norm = identity except: omitted empty omitempty slices/maps come back nil, NoNullSliceOrMap turns nil slices/maps into empty ones, a pointer to something that encodes as null comes back nil. Unrepresentable cases (NaN/Inf, chan, func, complex, invalid json.Number, pointer/map/slice cycles, Marshaler returning error or 7 kinds of garbage, failing TextMarshaler as value and as key) must yield an error (or valid JSON when the mask makes them representable). Non-trivial: mask != 0, output has a number or string, type has a container; all unrepresentable cases. Distinct = distinct canonical case encodings.",
+		Assume:   []string{"types whose encoding is lossy in encoding/json itself are outside the round-trip domain (json:\"-\", clashing names, pointer-receiver marshalers at non-addressable positions, string-kind TextMarshaler keys, nil RawMessage)", "NoQuoteTextMarshaler is cleared when the type holds a TextMarshaler whose text is not a JSON literal (documented caller error)"},
+		EssentialClasses: []string{"new-type", "NoNullSliceOrMap", "NoQuoteTextMarshaler", "unrep:NaN", "unrep:pointer cycle", "unrep:invalid json.Number"},
+	},
+	"C12": {
+		Test:     "TestC12",
+		Quick:    tierCfg{Shards: 8, Checks: 1500, TimeoutS: 900},
+		Thorough: tierCfg{Shards: 16, Checks: 60000, TimeoutS: 10800},
+		Rule:     "each case = (type spec, value incl. NaN/Inf and invalid UTF-8, option mask 0..511), optionally wrapped in an unencodable or unrepresentable shape; the value is encoded as value, via pointer and inside []interface{} by the JIT back end and by the VM back end (switched in-process with verifhook.SetEncoderVM, which is encoder.ForceUseJit/ForceUseVM + cache reset): 3 evaluations per case; outputs must be byte-identical or both fail (without SortMapKeys: identical modulo object member order, since Go map iteration order differs between any two runs). Non-trivial: output contains a number or string and the type has a container. Distinct = distinct canonical case encodings.",
+		Assume:   []string{"the hook selects the back ends exactly as SONIC_ENCODER_USE_VM does at init (a cross-process tier with the real variable runs in the thorough tier)"},
+		EssentialClasses: []string{"has-map", "has-struct", "both-error", "unsupported", "unrepresentable"},
+	},
 	"C19": {
 		Test:     "TestC19",
 		Quick:    tierCfg{Shards: 8, Checks: 2500, TimeoutS: 900},
